@@ -272,6 +272,48 @@ decreasing_by
   all_goals simp only [Kids.size]; omega
 end
 
+/-! ### `Main()` (run_in_frontend.cpp) / `Start()`+`Stop()` (run_in_backend.cpp)
+
+What both do with the Apps tree `t` (a base `Module("")` whose children are the user's modules):
+```
+if (ctx.initialize(..)) {
+    if (apps.initialize(js_conf)) {
+        if (ctx.start() && apps.start()) { run loop; on the stop signal: apps.stop(); … }
+        apps.cleanup();
+    }
+    ctx.cleanup();
+}
+… ~Module(apps)
+```
+`ctxInit` / `ctxStart` are what `ContextImp::initialize()` / `start()` return. -/
+
+/-- the root calls `Main()` makes on the Apps tree before its final `cleanup()` (if any) -/
+def mainCalls (rb ctxInit ctxStart : Bool) (t : Mod) : List Call :=
+  if !ctxInit then []
+  else if !(initM rb t).2.1 then [.init]
+  else if !ctxStart then [.init]
+  else if (start rb (initM rb t).1).2.1 then [.init, .start, .stop]
+  else [.init, .start]
+
+/-- the hooks that run during one `Main()`, up to and including the destruction of the Apps tree -/
+def mainTrace (rb ctxInit ctxStart : Bool) (t : Mod) : List Ev :=
+  if !ctxInit then destroy t
+  else
+    let i := initM rb t
+    if !i.2.1 then i.2.2 ++ destroy i.1                      -- "Apps init fail": no cleanup() call
+    else if !ctxStart then
+      let c := cleanup true i.1
+      i.2.2 ++ c.2 ++ destroy c.1
+    else
+      let s := start rb i.1
+      if s.2.1 then
+        let p := stop true s.1                                  -- stop signal
+        let c := cleanup true p.1
+        i.2.2 ++ s.2.2 ++ p.2 ++ c.2 ++ destroy c.1
+      else
+        let c := cleanup true s.1                               -- "Apps start fail"
+        i.2.2 ++ s.2.2 ++ c.2 ++ destroy c.1
+
 /-! ### tree observations -/
 mutual
 /-- ids in pre-order (a module, then its children in registration order) -/
